@@ -226,7 +226,7 @@ EDIT_INVS = ["MkInBounds", "AtMostOneFinal", "ConvOK", "ExpandPaired"]
 def edit_plan(tier):
     """(name, wrapper constants, MaxSteps, simulate spec) of the PipelineGen runs."""
     if tier == "quick":
-        return [("exhaustive", edit_defs(4), 2, None), ("simulate", edit_defs(6, sample=5), 6, "num=700")]
+        return [("exhaustive", edit_defs(4), 2, None), ("simulate", edit_defs(6, sample=5), 6, "num=400")]
     return [("exhaustive", edit_defs(6), 2, None), ("exhaustive-deep", edit_defs(3, small=True), 3, None),
             ("simulate", edit_defs(6, sample=5), 8, "num=30000")]
 
@@ -484,8 +484,8 @@ def stack_slices(fn):
 
 
 def apply_consts(tier):
-    stages, batch = (3, 2) if tier == "quick" else (3, 4)
-    return {"C": 2, "MaxFan": 2, "MaxStages": stages, "MaxBatch": batch, "Mut": 0}
+    fan, stages, batch = (2, 3, 2) if tier == "quick" else (3, 3, 3)
+    return {"C": 2, "MaxFan": fan, "MaxStages": stages, "MaxBatch": batch, "Mut": 0}
 
 
 def apply_generate(tier, workers):
@@ -843,3 +843,41 @@ def run(tier, seed):
         "markers: judged by order preservation relative to surviving transforms, bounds 0..Len and survival (only slicing / "
         "remove_marker may delete); insert with a negative index is outside the documented use and only counted",
         "real-transform pipelines are compared numerically (1e-8) with the by-hand application on default.qubit"])
+
+
+def replay(path, tier, seed):
+    """Re-run a stored violation.  Construction-API replays are replayed call by call against the real CompilePipeline and
+    re-validated by Trace_Pipeline.tla; anything else re-runs the whole check."""
+    data = json.loads(open(path).read())
+    rep = data.get("replay") or {}
+    if "history" not in rep:
+        return run(tier, seed)
+    h = {"hist": [{"o": o, "err": None, "seq": None, "ret": None} for o in rep["history"]]}
+    cases = []
+    p, retained, prev = None, [], {"seq": [], "mk": []}
+    for stp in h["hist"]:
+        o = stp["o"]
+        try:
+            newp, ret = apply_call(p, o, retained, 0)
+            err = ""
+        except Exception as e:  # noqa: BLE001
+            newp, ret, err = p, "", type(e).__name__
+        if newp is None:
+            break
+        obs = {"err": err, "seq": names(newp), "ret": ret, "mk": mk_list(markers(newp)),
+               "intact": bool(all(snapshot(q) == snap for q, snap in retained if q is not newp))}
+        cases.append({"prev": prev, "o": o, "obs": obs})
+        p, prev = newp, {"seq": obs["seq"], "mk": obs["mk"]}
+    wd = lib.workdir(PID, "replay")
+    (wd / "cases.json").write_text(json.dumps(cases))
+    r = edit_validate({"cases": cases, "wd": wd, "file": wd / "cases.json"})
+    verd = {t[1] - 1: (t[2], t[3]) for t in r.tuples if t[0] == "V"}
+    viol = []
+    for i, c in enumerate(cases):
+        print(f"  {_show(c['o'])} -> err={c['obs']['err']!r} seq={c['obs']['seq']} markers={[(m['l'], m['v']) for m in c['obs']['mk']]}  [{verd[i][0]}]")
+        if verd[i][0] != "ok":
+            viol.append(Violation(key=f"edit:{opclass(c['o'])}:{verd[i][0]}", detail=f"replayed: {c}", replay=rep))
+            break
+    return CheckResult(coverage={"states": r.distinct, "transitions": r.generated, "traces_validated_against_impl": len(cases), "evaluations": len(cases),
+                                 "distinct_nontrivial": len(cases), "rule": "replay of one stored history", "samples": [], "exhaustive": False},
+                       violations=viol)
